@@ -206,6 +206,10 @@ func (msg *Message) RESPBytes() ([]byte, error) {
 			return nil, err
 		}
 		respBytes.Write(bytes)
+	default:
+		// Nothing can be written for it: inside an array the element would be
+		// counted but missing, and the frame would swallow the next reply.
+		return nil, fmt.Errorf(errorUnknownMessageType, msg.Type)
 	}
 
 	return respBytes.Bytes(), nil
